@@ -4,3 +4,4 @@
 -/
 import RosuModel.Props.C16Surplus
 import RosuModel.Props.C16Ieee
+import RosuModel.Props.C16IeeeLen
